@@ -446,7 +446,7 @@ crate::harnesses! {
     /// every finite f64, radix 16 with exponent base 2 (hex float), default notation.
     /// @prop C06 C09
     /// @mem 10
-    /// @tier thorough
+    /// @tier deep
     /// @feat pow2 radix
     /// @fn lexical-write-float::hex::write_float
     /// @timeout 5400
@@ -456,7 +456,7 @@ crate::harnesses! {
     /// every finite f64, radix 32, default notation.
     /// @prop C06 C09
     /// @mem 10
-    /// @tier thorough
+    /// @tier deep
     /// @feat pow2 radix
     /// @fn lexical-write-float::binary::write_float
     /// @timeout 5400
